@@ -44,7 +44,10 @@ def read_dates_from_csv(input_file, date_format=None):
             index_date = line.index('date')
             break
         for line in reader:
-            dates[line[index_name]] = float(line[index_date])
+            # calendar dates (date_format given) are converted below
+            dates[line[index_name]] = (
+                float(line[index_date]) if date_format is None else line[index_date]
+            )
 
     if date_format is not None:
         res = re.split(r"[/-]", date_format)
